@@ -5,7 +5,7 @@
     [exact]; proofs live in ParseSound*.v.  (Ledger: C01/C07; parse end: C10.) *)
 From CJ Require Import Base Dbl Tree LibcNum ParseDefs ParseSpec Grammar ParseRefine
   ParseSoundUtf8 ParseSoundGrammar ParseSound ParseSoundReject ParseSoundCtx ParseSoundIncl ParseSoundInclRef ParseSoundEntry
-  ParseSoundExamples.
+  ParseSoundExamples ParseSafe.
 Local Open Scope Z_scope.
 
 (** * 0. At the entry point (buffer-level transliteration of cJSON_ParseWithLengthOpts, no
@@ -479,3 +479,19 @@ Print Assumptions C03_rejected_too_deep.
 Theorem C03_accepted_at_limit : exists t, text_l strtod_ref (repeat 91 1000 ++ repeat 93 1000) false = Some (t, []).
 Proof. exact acc_at_limit. Qed.
 Print Assumptions C03_accepted_at_limit.
+
+(** ---- rejection leaves nothing behind, and deep nesting is refused with bounded recursion
+    (buffer-level model, every allocation schedule: the lemmas of ParseSafe.v, also C01) ---- *)
+Theorem C03_reject_clean : forall strtod oracle content len rnt,
+  ParseDefs.strtod_ok strtod -> (len <= length content)%nat ->
+  exists r, ParseDefs.cJSON_ParseWithLengthOpts strtod oracle content len rnt = Ok r
+         /\ (ParseDefs.pr_tree r = None -> ParseDefs.pr_live r = 0%Z)
+         /\ (forall t, ParseDefs.pr_tree r = Some t -> ParseDefs.pr_live r = ParseDefs.blocks t).
+Proof. exact ParseSafe.parse_length_safe. Qed.
+Print Assumptions C03_reject_clean.
+
+Theorem C03_depth_counter_bounded : forall strtod oracle content len fuel s r s',
+  ParseDefs.strtod_ok strtod -> (len <= length content)%nat -> (0 <= ParseDefs.dep s <= c_CJSON_NESTING_LIMIT)%Z ->
+  ParseDefs.parse_value strtod oracle content len fuel s = Ok (r, s') -> (0 <= ParseDefs.dep s' <= c_CJSON_NESTING_LIMIT + 1)%Z.
+Proof. exact ParseSafe.parse_depth_bounded. Qed.
+Print Assumptions C03_depth_counter_bounded.
